@@ -4,8 +4,14 @@ from xvlib import log
 from props.common import *
 from props.vhmcommon import *
 
+_base_harnesses = harnesses
+def harnesses(tier):
+    return _base_harnesses(tier) + [('vhm', ('XV_RECL=GC',), False, '_gc')]
 HARNESSES = harnesses('quick')
-LEVEL = 'exploration'
+PROPERTY_FILES = ['Properties_C11_vhm', 'Properties_C11']
+THEOREM_NOTES = {
+    'scope': 'the theorems are about a step-level model of ONE bucket of vyukov_hash_map<long, long> (constant hash, no grow): 3 array slots + extension items with their free list and lock, bucket.state = the word GENERATED from the source (lock bit, version, item count, delete marker), emplace / get_or_emplace / erase / extract / lock-free try_get_value plus the iterator operations find-as-iterator / begin / ++ / * / erase(iterator) / reset, for any number of threads, programs and schedules: lock discipline, structure when unlocked (abstract map = array pairs + chain pairs, keys distinct), chain and free list disjoint, the version rule (every step bumps the version or preserves what a reader may be standing on), writers linearize at the store that makes the change visible with the sequential result, and the main theorem: every completed try_get_value(k) has an instant inside the call at which the abstract map agreed with its answer (never absent for a key present throughout, never a value of another key); a positioned iterator holds the bucket lock exclusively also between operations, erase(iterator) removes exactly the current pair, reset and a completed traversal leave every bucket unlocked. Hypothesis of the reader theorems: fewer than 2^27 version bumps (the 27-bit version field can wrap). Tied to the code by trace correspondence (mode ll, GC reclaimer, extension-bucket offset probed per run). Multi-bucket maps, grow, non-trivial key/value storage modes and the real reclaimers are covered by the search only',
+}
 ASSUMPTIONS = [
     'SC interleavings only; iterator threads follow the documented rules (one iterator per thread, no other operation while it is positioned)',
     'a lost bucket lock shows up as an operation that never returns (spin detection / step budget, also in the final single-threaded traversal)',
@@ -21,6 +27,11 @@ def run(ctx):
     thorough = tier == 'thorough'
     Hs = ctx['H']
     run_corpus(ctx, Hs['vhm_hp'], 'C11')
+    # ---- tie: the one-bucket model reproduces the implementation's traces
+    Hgc = Hs.pop('vhm_gc')
+    cases = list(VHMIT_FIXED) + [vhm_model_program(rng, iterators=True) for _ in range(8 if thorough else 4)]
+    st = vhm_correspondence(ctx, 'vhmit', Hgc, cases, 8 if thorough else 5, 'vyukov_hash_map bucket + iterators')
+    tie = tie_broken_sig(st, 'vhmit')
     n = 1500 if thorough else 200
     for name, H in sorted(Hs.items()):
         jobs = []
@@ -45,4 +56,4 @@ def run(ctx):
                 jobs.append((cfg, vhm_program(rng, 3, 3, iter_thread=0), 'random', n, ctx['seed'], ()))
                 jobs.append((cfg, vhm_program(rng, 3, 3, iter_thread=0), 'pct', n, ctx['seed'], ('--depth', '3')))
         do_search(ctx, H, jobs, name, classify=lambda c, h, f, name=name: {'harness': name})
-    return None
+    return tie
